@@ -30,7 +30,7 @@ def FieldName.toks : FieldName → Toks
   | .index n => tq cs (ToString.toString n)            -- `syn::Index::from(n)`: call-site literal
 
 def Name.toks : Name → Toks
-  | .field (.ident i) => [⟨.plain ("__assert_struct_field_" ++ i.name), i.sp⟩]   -- keeps the field's span
+  | .field (.ident i) => [⟨.plain ("__assert_struct_field_" ++ i.unraw), i.sp⟩]  -- keeps the field's span
   | n => tq cs n.render                                -- `format_ident!` / `quote!`: call site
 
 def Pre.toks : Pre → Toks
